@@ -18,14 +18,17 @@ CONSTANTS OpsAt,       \* OpsAt[d] = number of operations after the prelude of d
           MaxIds,      \* cleanup callables (0: no add_cleanup)
           ArgModes,    \* subset of {0,1}: bare / with args
           WithFixtures,
-          WithAttrs    \* set/del at all
+          WithAttrs,   \* set/del at all
+          NestSet,     \* nested execute_steps variants <<depth, shapes, ok>>
+          TwoRuns,     \* after the closing a second Context is built (same process) and gets OpsB operations
+          OpsB
 
-VARIABLES ph, todo, s, m, ops, obs, lastv, n, maxn, rzOf
-vars == <<ph, todo, s, m, ops, obs, lastv, n, maxn, rzOf>>
+VARIABLES ph, todo, s, m, ops, obs, lastv, n, maxn, rzOf, round
+vars == <<ph, todo, s, m, ops, obs, lastv, n, maxn, rzOf, round>>
 
 PreChain == << <<>>, <<2>>, <<2, 4>>, <<2, 3, 4>> >>
 Init == /\ ph = "start" /\ todo = <<>> /\ s = SInit /\ m = MInit /\ ops = <<>> /\ obs = <<>>
-        /\ lastv = {} /\ n = 0 /\ maxn = 0 /\ rzOf = <<0, 0, 0>>
+        /\ lastv = {} /\ n = 0 /\ maxn = 0 /\ rzOf = <<0, 0, 0>> /\ round = 1
 
 Do(op) == LET seq == Len(ops) + 1
               r == Apply(s, op, seq)
@@ -37,15 +40,15 @@ Start == /\ ph = "start"
          /\ \E d \in {x \in 1..4 : OpsAt[x] > 0} : /\ todo' = PreChain[d]
                                                      /\ maxn' = OpsAt[d]
                                                      /\ ph' = IF d = 1 THEN "run" ELSE "pre"
-         /\ UNCHANGED <<s, m, ops, obs, lastv, n, rzOf>>
+         /\ UNCHANGED <<s, m, ops, obs, lastv, n, rzOf, round>>
 Prelude == /\ ph = "pre"
            /\ Do(OpPush(Head(todo)))
            /\ todo' = Tail(todo)
            /\ ph' = IF Tail(todo) = <<>> THEN "run" ELSE "pre"
-           /\ UNCHANGED <<n, maxn, rzOf>>
+           /\ UNCHANGED <<n, maxn, rzOf, round>>
 
 Room == ph = "run" /\ n < maxn
-Step(op) == Do(op) /\ n' = n + 1 /\ UNCHANGED <<ph, todo, maxn>>
+Step(op) == Do(op) /\ n' = n + 1 /\ UNCHANGED <<ph, todo, maxn, round>>
 Plain(op) == Step(op) /\ UNCHANGED rzOf
 TopLayer == s.frames[Len(s.frames)].layer
 \* scopes nest the way model.py nests them; one unnamed layer (scoped_context_layer(context)) below a scenario
@@ -81,13 +84,18 @@ UseFixture == Room /\ WithFixtures /\
                  \/ Plain(OpUseFixture(3, 99, 0))
 SwitchMode == Room /\ WithMode /\ Plain(OpSwitchMode)
 ExecuteSteps == Room /\ WithExec /\ \E ok \in {0, 1} : Plain(OpExecSteps(ok))
+ExecuteNested == Room /\ \E v \in NestSet : Plain(OpExecNested(v[1], v[2], v[3]))
+\* a second Context in the same process (the callables keep their identity and their raising choice)
+NewContext == /\ ph = "done" /\ TwoRuns /\ round = 1
+              /\ Do(OpNewContext) /\ ph' = "run" /\ n' = 0 /\ maxn' = OpsB /\ round' = 2
+              /\ UNCHANGED <<todo, rzOf>>
 ClosePop == /\ ph \in {"run", "close"} /\ n = maxn /\ Len(s.frames) > 1
-            /\ Do(OpPop) /\ ph' = "close" /\ UNCHANGED <<todo, n, maxn, rzOf>>
+            /\ Do(OpPop) /\ ph' = "close" /\ UNCHANGED <<todo, n, maxn, rzOf, round>>
 CloseRun == /\ ph \in {"run", "close"} /\ n = maxn /\ Len(s.frames) = 1
-            /\ Do(OpEndRun) /\ ph' = "done" /\ UNCHANGED <<todo, n, maxn, rzOf>>
+            /\ Do(OpEndRun) /\ ph' = "done" /\ UNCHANGED <<todo, n, maxn, rzOf, round>>
 
 Next == \/ Start \/ Prelude \/ Push \/ Pop \/ Set \/ SetRoot \/ Get \/ Has \/ Del \/ UseOrAssign \/ UseOrCreate
-        \/ AddCleanup \/ UseFixture \/ SwitchMode \/ ExecuteSteps \/ ClosePop \/ CloseRun
+        \/ AddCleanup \/ UseFixture \/ SwitchMode \/ ExecuteSteps \/ ExecuteNested \/ NewContext \/ ClosePop \/ CloseRun
 Spec == Init /\ [][Next]_vars
 
 \* ---------------------------------------------------------------- the clauses at design level
@@ -119,5 +127,12 @@ Ops0040 == <<0, 0, 4, 0>>
 Ops5000 == <<5, 0, 0, 0>>
 Ops6000 == <<6, 0, 0, 0>>
 OpsSim == <<50, 50, 50, 50>>
-Emit == ph = "done" => PrintT(<<"CASE", ToJson([ops |-> ops, obs |-> obs])>>)
+\* nested execute_steps variants
+NestNone == {}
+NestAll == {<<d, sh, ok>> : d \in {2}, sh \in 0..26, ok \in {0, 1}} \cup {<<d, sh, ok>> : d \in {3}, sh \in 0..80, ok \in {0, 1}}
+NestFew == {<<2, 16, 1>>, <<2, 16, 0>>, <<2, 5, 0>>, <<3, 46, 1>>, <<3, 46, 0>>, <<3, 7, 1>>}
+Ops1010 == <<1, 0, 1, 0>>
+Ops1121 == <<1, 1, 2, 1>>
+Ops2000 == <<2, 0, 0, 0>>
+Emit == (ph = "done" /\ (~TwoRuns \/ round = 2)) => PrintT(<<"CASE", ToJson([ops |-> ops, obs |-> obs])>>)
 =============================================================================
